@@ -228,18 +228,34 @@ def r_e2e(inputs, params, obligation):
 
 
 def r_handoff(inputs, params, obligation):
-    """concrete demonstration of a dirty hand-off: a first script that returns at top level followed by a
-    script whose first instruction is an IF"""
+    """concrete demonstration of a dirty hand-off: the script the model lets return at top level, followed by a script whose
+    first instruction is an IF and whose remaining instructions must fail"""
     import tapescript
     n = params['n']
     cv = {'returned': 1} if params['cv_returned'] else {}
-    first = tapescript.compile_script('true true return' if not params['cv_returned'] else 'true true')
-    lock = tapescript.compile_script('if { } false verify')
-    scripts = [first] + [lock] * max(1, n - 1) if (n > 1 or params['cv_returned']) else [first]
-    if n == 1 and params['cv_returned']:
-        scripts = [tapescript.compile_script('true true if { } false verify')]
-    got = tapescript.run_auth_scripts(scripts, cv)
-    return {'reproduced': got is True, 'scripts': [s.hex() for s in scripts], 'cache_vals': repr(cv), 'verdict': got}
+    comp = tapescript.compile_script
+    tried = []
+    ks = [k for k in range(n - 1) if inputs.get(f'body{k}.returns')] or [0]
+    for k in ks:
+        if n == 1:
+            scripts = [comp('true true if { } false verify')] if params['cv_returned'] else [comp('true true return')]
+        else:
+            scripts = []
+            for i in range(n):
+                if i == k:
+                    scripts.append(comp('true true return' if k == 0 else 'true return') if not (params['cv_returned'] and k == 0)
+                                   else comp('true true'))
+                elif i == k + 1:
+                    scripts.append(comp('if { } false verify'))
+                elif i == 0:
+                    scripts.append(comp('true'))
+                else:
+                    scripts.append(comp('true pop0'))
+        got = tapescript.run_auth_scripts(scripts, dict(cv))
+        tried.append({'scripts': [s_.hex() for s_ in scripts], 'verdict': got})
+        if got is True and n > 1:
+            return {'reproduced': True, 'scripts': [s_.hex() for s_ in scripts], 'cache_vals': repr(cv), 'verdict': got}
+    return {'reproduced': False, 'tried': tried[:3], 'cache_vals': repr(cv)}
 
 
 def _p_handoff(tier):
